@@ -213,6 +213,21 @@ pub fn scenario_for(prop: &'static str, name: &str, params: &Value) -> Scenario 
             if !sys.dead {
                 sys.apply(Ev::Start(OpSpec::Publish(PublishSpec::simple(1, "t/new", b"new"))));
             }
+            // after an expired session nothing of the old one is left: a new ping is answered by the
+            // first PINGRESP of the new connection, a new subscribe by its SUBACK
+            if expired && params["fresh"].as_bool().unwrap_or(false) && !sys.dead {
+                sys.apply(Ev::Start(OpSpec::Ping));
+                sys.apply(Ev::Deliver(SPacket::Pingresp));
+                sys.apply(Ev::Start(OpSpec::Subscribe(SubscribeSpec::simple("s/fresh"))));
+                let o = sys.m.ops.len() - 1;
+                if !sys.dead {
+                    if let Some(a) = sys.ack_for(o, 0, "fresh") {
+                        sys.apply(Ev::Deliver(a));
+                    }
+                }
+                sys.apply(Ev::Start(OpSpec::Ping));
+                sys.apply(Ev::Deliver(SPacket::Pingresp));
+            }
         }
         sys.finish();
         sys.report(
